@@ -142,6 +142,7 @@ var_opt_union<T, A> var_opt_union<T, A>::deserialize(std::istream& is, const Ser
   const auto family_id = read<uint8_t>(is);
   const auto flags = read<uint8_t>(is);
   const auto max_k = read<uint32_t>(is);
+  if (!is.good()) throw std::runtime_error("error reading from std::istream");
 
   check_preamble_longs(preamble_longs, flags);
   check_family_and_serialization_version(family_id, serial_version);
@@ -162,11 +163,15 @@ var_opt_union<T, A> var_opt_union<T, A>::deserialize(std::istream& is, const Ser
   const auto items_seen = read<uint64_t>(is);
   const auto outer_tau_numer = read<double>(is);
   const auto outer_tau_denom = read<uint64_t>(is);
+  if (!is.good()) throw std::runtime_error("error reading from std::istream");
 
   var_opt_sketch<T, A> gadget = var_opt_sketch<T, A>::deserialize(is, sd, allocator);
 
   if (!is.good())
     throw std::runtime_error("error reading from std::istream"); 
+
+  // the embedded sketch must be a gadget (the union reads and writes its marks)
+  if (gadget.marks_ == nullptr) throw std::invalid_argument("Possible corruption: the union's gadget image is not flagged as a gadget");
 
   return var_opt_union(items_seen, outer_tau_numer, outer_tau_denom, max_k, std::move(gadget), allocator);
 }
@@ -200,6 +205,7 @@ var_opt_union<T, A> var_opt_union<T, A>::deserialize(const void* bytes, size_t s
     return var_opt_union(max_k);
   }
 
+  ensure_minimum_memory(size, PREAMBLE_LONGS_NON_EMPTY << 3);
   uint64_t items_seen;
   ptr += copy_from_mem(ptr, items_seen);
   double outer_tau_numer;
@@ -209,6 +215,9 @@ var_opt_union<T, A> var_opt_union<T, A>::deserialize(const void* bytes, size_t s
 
   const size_t gadget_size = size - (PREAMBLE_LONGS_NON_EMPTY << 3);
   var_opt_sketch<T, A> gadget = var_opt_sketch<T, A>::deserialize(ptr, gadget_size, sd, allocator);
+
+  // the embedded sketch must be a gadget (the union reads and writes its marks)
+  if (gadget.marks_ == nullptr) throw std::invalid_argument("Possible corruption: the union's gadget image is not flagged as a gadget");
 
   return var_opt_union(items_seen, outer_tau_numer, outer_tau_denom, max_k, std::move(gadget), allocator);
 }
